@@ -1,5 +1,7 @@
 /* main driver (C12, C17, C18): the real main() with every call it makes scripted */
 #include "kdrv.h"
+#include <sys/mount.h>
+#include <fcntl.h>
 #include "messages.h"
 #include "wrap_main.h"
 #include <poll.h>
@@ -52,7 +54,12 @@ static int h_stat(const char *p, struct stat *st) {
   return 0;
 }
 static int h_fan_init(unsigned a, unsigned b) {
-  printf("faninit\n");
+  /* the notification class and a read-only event descriptor are what the daemon needs; anything else is shown */
+  if (a == FAN_CLASS_NOTIF && (b & O_ACCMODE) == O_RDONLY && !(b & ~(O_ACCMODE | O_CLOEXEC | O_LARGEFILE))) {
+    printf("faninit\n");
+  } else {
+    printf("faninit %#x %#x\n", a, b);
+  }
   if (!S.fan) {
     errno = EPERM;
     return -1;
@@ -60,7 +67,12 @@ static int h_fan_init(unsigned a, unsigned b) {
   return FANFD;
 }
 static int h_fan_mark(int fd, unsigned flags, unsigned long long mask, const char *path) {
-  printf("mark %c ", mask == FAN_OPEN_EXEC ? 'e' : 'w');
+  /* e = executions, w = completed writes, on the whole mount; any other mask / flags are shown as they are */
+  if (flags == (FAN_MARK_ADD | FAN_MARK_MOUNT) && (mask == FAN_OPEN_EXEC || mask == FAN_CLOSE_WRITE)) {
+    printf("mark %c ", mask == FAN_OPEN_EXEC ? 'e' : 'w');
+  } else {
+    printf("mark flags=%#x mask=%#llx ", flags, mask);
+  }
   print_hex(path);
   printf("\n");
   if (S.nmark++ == S.markfail) {
@@ -70,7 +82,12 @@ static int h_fan_mark(int fd, unsigned flags, unsigned long long mask, const cha
   return 0;
 }
 static int h_mount(const char *src, const char *tgt) {
-  printf("mount ");
+  /* a bind mount of the directory onto itself */
+  if (src && tgt && !strcmp(src, tgt) && M.mount_flags == MS_BIND && !M.mount_data) {
+    printf("mount ");
+  } else {
+    printf("mount src=%s flags=%#lx ", src ? src : "(null)", M.mount_flags);
+  }
   print_hex(tgt);
   printf("\n");
   if (!S.mount_ok) {
